@@ -116,3 +116,71 @@ def check_lines(repo: Repo, where: str, thorough: bool = False) -> tuple[int, li
                     if ok and tuple(plc) != ref_line_col(text, a):
                         bad.append(("Pair.line_col is not the line and column of the pair's start", f"{desc}: returns {tuple(plc)}, the text says {ref_line_col(text, a)}"))
     return n, bad
+
+
+def check_error_context(repo: Repo, where: str, thorough: bool = False) -> tuple[int, list[tuple[str, str]]]:
+    """C13 CONTEXT: error_context(text, p) - the line:column and source line a parse error shows - is the line and
+    column of p (same definition as Position.line_col: the end of a text that ends with a line break is the start
+    of a new, empty line), on the same model texts and every offset."""
+    rel = "src/pest/exceptions.py"
+    cm = ClassModel(repo, rel, where, max_steps=50000)
+    if "error_context" not in cm.env:
+        raise AnalysisError(f"anchor vanished: {rel}::error_context")
+    bad: list[tuple[str, str]] = []
+    n = 0
+    for text in texts(thorough=thorough):
+        for p in range(len(text) + 1):
+            n += 1
+            desc = f"text {text!r}, offset {p}"
+            try:
+                got = cm.env["error_context"](text, p)
+            except ModelRaise as err:
+                bad.append(("error_context raises", f"{desc}: {err}"))
+                continue
+            if not (isinstance(got, tuple) and len(got) == 3):
+                bad.append(("error_context does not return (line, line number, column)", f"{desc}: {got!r}"))
+                continue
+            line, ln, col = got
+            want = ref_line_col(text, p)
+            where_ = ("in the empty text" if not text else "at the end of a text that ends with a line break" if p == len(text) and text.endswith("\n") else "at the end of a text without a final line break" if p == len(text)
+                      else "at the position just after a line break" if p > 0 and text[p - 1] == "\n" else "on a line break" if text[p] == "\n" else "inside a line")
+            if (ln, col) != want:
+                bad.append((f"the line:column shown is not that of the position {where_}", f"{desc}: shows {ln}:{col}, the position is at {want[0]}:{want[1]}"))
+            wl = ref_line_of(text, p).rstrip("\n")
+            if line not in (wl, wl.rstrip()):
+                bad.append((f"the source line shown is not the line of the position {where_}", f"{desc}: shows {line!r}, the line is {wl!r}"))
+    return n, bad
+
+
+def check_grammar_error_context(repo: Repo, where: str, thorough: bool = False) -> tuple[int, list[tuple[str, str]]]:
+    """C11 CONTEXT: PestGrammarError._error_context(text, p) - (line number, 0-based column, previous, current, next
+    line) - points at the line and column of p, a place that exists in the text."""
+    rel = "src/pest/grammar/exceptions.py"
+    cm = ClassModel(repo, rel, where, max_steps=50000)
+    if "PestGrammarError" not in cm.classes or cm._resolve("PestGrammarError", "_error_context") is None:  # noqa: SLF001
+        raise AnalysisError(f"anchor vanished: {rel}::PestGrammarError._error_context")
+    bad: list[tuple[str, str]] = []
+    n = 0
+    err_obj = Obj(("PestGrammarError", "Exception"), args=("m",), token=None)
+    for text in texts(thorough=thorough):
+        for p in range(len(text) + 1):
+            n += 1
+            desc = f"text {text!r}, offset {p}"
+            try:
+                got = cm.call(err_obj, "_error_context", text, p)
+            except ModelRaise as err:
+                bad.append(("_error_context raises", f"{desc}: {err}"))
+                continue
+            if not (isinstance(got, tuple) and len(got) == 5):
+                bad.append(("_error_context does not return (line number, column, previous, current, next)", f"{desc}: {got!r}"))
+                continue
+            ln, col, _prev, cur, _next = got
+            wl_, wc = ref_line_col(text, p)
+            where_ = ("in the empty text" if not text else "at the end of a text that ends with a line break" if p == len(text) and text.endswith("\n") else "at the end of a text without a final line break" if p == len(text)
+                      else "at the position just after a line break" if p > 0 and text[p - 1] == "\n" else "on a line break" if text[p] == "\n" else "inside a line")
+            if (ln, col) != (wl_, wc - 1):
+                bad.append((f"the line and column reported are not those of the position {where_}", f"{desc}: reports line {ln}, column {col} (0-based), the position is at line {wl_}, column {wc - 1}"))
+            wl = ref_line_of(text, p).rstrip("\n")
+            if cur not in (wl, wl.rstrip()):
+                bad.append((f"the source line shown is not the line of the position {where_}", f"{desc}: shows {cur!r}, the line is {wl!r}"))
+    return n, bad
